@@ -48,13 +48,14 @@ type Harness struct {
 }
 
 type Check struct {
-	ID          string
-	Level       string
-	Harnesses   []Harness
-	Assumptions []string
-	Outside     string
-	Explanation string
-	Race        bool // build the native replay binary with the race detector
+	ID                string
+	Level             string
+	Harnesses         []Harness
+	Assumptions       []string
+	Outside           string
+	Explanation       string
+	Race              bool // build the native replay binary with the race detector
+	ThoroughTimeoutMs int  // per-query solver budget in the thorough tier (default 60 s)
 }
 
 type task struct {
@@ -159,6 +160,9 @@ func runCheck(args []string) int {
 	if tier == "thorough" {
 		r.timeoutMs = 60000
 		budget = 90 * time.Minute
+		if chk.ThoroughTimeoutMs > 0 {
+			r.timeoutMs = chk.ThoroughTimeoutMs
+		}
 	}
 	if b := os.Getenv("QSYM_BUDGET_S"); b != "" {
 		n, _ := strconv.Atoi(b)
@@ -277,6 +281,7 @@ func (r *runner) worker() {
 	sol := NewSolver(envOr("QSYM_SOLVER", "z3"), r.timeoutMs)
 	defer sol.Close()
 	ex := NewExec(r.P.prog, sol)
+	ex.deadline = r.deadline
 	if r.tier == "thorough" {
 		ex.xsample = 29
 	} else {
